@@ -61,7 +61,7 @@ PROPS = {
     "C02": dict(kind="run", proj="P_seq", mon="mon_C02seq", property_files=("C02net", "C02seq", "Refinement", "RefinementTransfer"),
                 profiles=["blocks", "default", "imm", "loops", "react_loops"], quick=240, thorough=6000,
                 finding_profiles=["parloop_all", "parloop_mix"]),
-    "C03": dict(kind="run", proj="P_set", mon="mon_C02seq", property_files=("C02seq", "Refinement", "RefinementTransfer"),
+    "C03": dict(kind="run", proj="P_set", mon="mon_C03", property_files=("C02seq", "C03fork", "Refinement", "RefinementTransfer"),
                 profiles=["parallel", "parloop", "react"], quick=240, thorough=6000,
                 finding_profiles=["parloop_all"]),
     "C04": dict(kind="run", proj="P_C04", mon="mon_C04ctx", property_files=("C04ctx", "Refinement", "RefinementTransfer"),
@@ -70,7 +70,7 @@ PROPS = {
     "C05": dict(kind="run", proj="P_seq", mon="mon_C02seq", property_files=("C02seq", "Refinement", "RefinementTransfer"),
                 profiles=["loops", "react_loops"], quick=240, thorough=6000,
                 finding_profiles=["parloop_all", "parloop_mix"]),
-    "C06": dict(kind="run", proj="P_set", mon="mon_true",
+    "C06": dict(kind="run", proj="P_set", mon="mon_C06", property_files=("C02seq", "C06inst"),
                 profiles=["parloop", "react_parloop"], quick=240, thorough=6000, finding_profiles=["parloop_all", "parloop_mix"]),
     "C07": dict(kind="run", proj="P_ids", mon="mon_C07", property_files=("Refinement", "RefinementTransfer"),
                 profiles=["default", "imm", "parallel", "loops", "parloop", "react", "react_loops", "uuid_loops_calls"],
